@@ -46,6 +46,7 @@ class ProgResult:
         self.hyb_reads = 0
         self.kf_used = set()
         self.clang_mismatch = 0
+        self.diff_keys = set()
 
     @property
     def compared(self):
@@ -273,6 +274,7 @@ def run_differential(progs, base_il_defs: dict, base_c_subs: dict, nstates: int,
             d = diff_obs(co, io)
             if d:
                 r.diff += 1
+                r.diff_keys |= {x[0] for x in d}
                 if len(r.fail_states) < 3:
                     r.fail_states.append((n, "diff", d[:6], _st_brief(st)))
             else:
